@@ -35,7 +35,9 @@ type VerifRule struct {
 	Errno  string `json:"errno,omitempty"`
 	Raw    string `json:"raw,omitempty"` // content for action "content"
 	Val    int    `json:"val,omitempty"` // value stored instead for action "stick"; number of levels for action "quant"
-	Count  int    `json:"-"`
+	IfVal    *int `json:"ifVal,omitempty"`    // writes only: the rule applies only to writes of this value
+	IfNotVal *int `json:"ifNotVal,omitempty"` // writes only: the rule applies only to writes of another value
+	Count    int  `json:"-"`
 }
 
 // verifQuant maps a value to the nearest of n evenly spaced levels in 0..255 (idempotent).
@@ -140,10 +142,13 @@ func verifParse(text string, path string) (int, error) {
 }
 
 // must be called with d.Mu held
-func (d *VerifDriverT) match(op string, path string) *VerifRule {
+func (d *VerifDriverT) match(op string, path string, value int) *VerifRule {
 	var hit *VerifRule
 	for _, r := range d.Rules {
 		if r.Op != op || r.Path != path {
+			continue
+		}
+		if op == "w" && ((r.IfVal != nil && *r.IfVal != value) || (r.IfNotVal != nil && *r.IfNotVal == value)) {
 			continue
 		}
 		r.Count++
@@ -184,7 +189,7 @@ func (d *VerifDriverT) read(path string) (value int, err error) {
 	d.Mu.Lock()
 	defer d.Mu.Unlock()
 	ev := VerifEvent{Op: "r", Path: path}
-	rule := d.match("r", path)
+	rule := d.match("r", path, 0)
 	switch {
 	case rule != nil && rule.Action == "fail":
 		value, err = -1, &fs.PathError{Op: "open", Path: path, Err: verifErrno(rule.Errno)}
@@ -220,7 +225,7 @@ func (d *VerifDriverT) write(value int, path string, atomicWrite bool) (err erro
 	d.Mu.Lock()
 	defer d.Mu.Unlock()
 	ev := VerifEvent{Op: "w", Path: path, Val: value}
-	rule := d.match("w", path)
+	rule := d.match("w", path, value)
 	store := value
 	switch {
 	case rule != nil && rule.Action == "fail":
